@@ -360,6 +360,31 @@ def run(ctx: core.Ctx):
             except Exception as e:  # noqa
                 witness = witness or dict(kind="inference-unencodable", names=names, nrows=len(rows), leading_nulls=next((i for i, r in enumerate(rows) if r[-1] is not None), None),
                                           inferred_types=got_types, error=repr(e), rows_tail=repr(rows[-3:]))
+        # an application that keeps its bare column names in ONE list / tuple and returns it with every result: what the first
+        # result's inference found must not be what the next result is announced and encoded with
+        firsts = [[(1, 2)], [(1, None)], [("a", "b")], [], [(None, None)]]
+        seconds = [[(5, "text")], [("x", 7)], [(None, 2.5)], [(date(2020, 1, 2), b"b")], [(3, 4)]]
+        for mk in (list, tuple):
+            for f in firsts:
+                for sec in seconds:
+                    shared = mk(["k", "v"])
+                    try:
+                        loop.run_until_complete(_collect(loop.run_until_complete(ensure_result_set((list(f), shared))).rows))
+                        rs2 = loop.run_until_complete(ensure_result_set((list(sec), shared)))
+                        out2 = loop.run_until_complete(_collect(rs2.rows))
+                        fresh = loop.run_until_complete(ensure_result_set((list(sec), ["k", "v"])))
+                        loop.run_until_complete(_collect(fresh.rows))
+                        t2, tf = [int(c.type) for c in rs2.columns], [int(c.type) for c in fresh.columns]
+                        for r in out2:
+                            packets.make_text_resultset_row(r, rs2.columns)
+                            packets.make_binary_resultrow(r, rs2.columns)
+                    except Exception as e:  # noqa
+                        witness = witness or dict(kind="inference-reused-column-names", container=mk.__name__, first_result=repr(f), second_result=repr(sec), error=repr(e))
+                        continue
+                    distinct.add(("reuse", mk.__name__, repr(f), repr(sec)))
+                    if t2 != tf or out2 != [tuple(r) for r in sec] or list(shared) != ["k", "v"]:
+                        witness = witness or dict(kind="inference-reused-column-names", container=mk.__name__, first_result=repr(f), second_result=repr(sec),
+                                                  types_second=t2, types_on_fresh_names=tf, names_object_after=repr(shared)[:200])
     finally:
         loop.close()
 
